@@ -840,7 +840,8 @@ fn sweep_buffer_boundaries(fmt: Format, probes: &[&str], thorough: bool) -> Acc 
 /// well-formed files far beyond the small scope (two- to four-digit indexes, labels of 10+ characters,
 /// thousands of lines) and their structural edits: the classifier is the same, only the sizes differ
 fn sweep_big_files(fmt: Format, probes: &[&str], thorough: bool) -> Acc {
-    let sizes: Vec<usize> = if thorough { vec![12, 40, 150, 1000, 3000] } else { vec![12, 40, 150, 1000] };
+    // 1023 / 1024 / 1025 / 1100: the Aspartix reader reserves room for 2^10 labels
+    let sizes: Vec<usize> = if thorough { vec![12, 40, 150, 1000, 1023, 1024, 1025, 1100, 3000] } else { vec![12, 40, 150, 1023, 1024, 1025, 1100] };
     let cells: Vec<(&str, usize, usize)> = crate::checks::c11::FAMILIES.iter().flat_map(|f| sizes.iter().flat_map(move |&z| (0..2usize).map(move |style| (*f, z, style)))).collect();
     cells
         .par_iter()
@@ -1028,7 +1029,7 @@ pub fn run(tier: Tier) -> i32 {
         run_one(format!("{}: all byte strings of length <= 2, and of length 3 over 40 bytes", fmt.name()), sweep_short_bytes(fmt, probes), &mut total);
         run_one(format!("{}: every well-formed file of U(<={}) in a menu of layouts", fmt.name(), 3), sweep_grammar(fmt, 3, probes), &mut total);
         run_one(format!("{}: one line of every length <= 130+ with one character of each UTF-8 width at every offset, in 7 syntactic positions", fmt.name()), sweep_long_lines(fmt, probes), &mut total);
-        run_one(format!("{}: well-formed files of 10 structured families with 12 ... {} arguments (short and 20+-character labels / interleaved comments) and their line edits", fmt.name(), if thorough { 3000 } else { 1000 }), sweep_big_files(fmt, probes, thorough), &mut total);
+        run_one(format!("{}: well-formed files of 10 structured families with 12 ... {} arguments (short and 20+-character labels / interleaved comments) and their line edits", fmt.name(), if thorough { 3000 } else { 1100 }), sweep_big_files(fmt, probes, thorough), &mut total);
         run_one(format!("{}: lines of length 2^k-1, 2^k, 2^k+1 for k = 7..17{} in 6-7 syntactic positions, followed by further declarations", fmt.name(), if thorough { " and 20" } else { "" }), sweep_buffer_boundaries(fmt, probes, thorough), &mut total);
         let kc = if thorough { 3 } else { 2 };
         run_one(format!("{}: `crustabri check` as a process on the corpus, its line edits and all line sequences of length <= {}", fmt.name(), kc), sweep_check_command(fmt, lines, kc), &mut total);
